@@ -150,8 +150,15 @@ def build(spec, src_dir, salt=0):
     n0 = ir.node("Add", [x, x], outputs=[ir.Value(name="y", shape=ir.Shape([3]), type=ir.TensorType(ir.DataType.FLOAT))])
     nodes.append(n0)
     outputs.append(n0.outputs[0])
+    use_of = {t["name"]: t.get("use", "node") for t in spec["tensors"]}
     for v in by_where["main"]:
         if v.const_value is None and not any(t["name"] == v.name and t["kind"] == "uninit" for t in spec["tensors"]):
+            continue
+        use = use_of.get(v.name, "node")
+        if use == "dead":       # registered as an initializer, consumed by no node
+            continue
+        if use == "output":     # the initializer itself is a graph output, consumed by no node
+            outputs.append(v)
             continue
         n, o = ident(v, "o_" + v.name)
         nodes.append(n)
